@@ -69,6 +69,8 @@ pub struct Perturb {
 
 #[derive(Default)]
 pub struct Counters {
+    /// write / seek / flush calls made while the fault plan was not paused
+    pub faultable: [u64; 3],
     pub reads: u64,
     pub writes: u64,
     pub seeks: u64,
@@ -124,6 +126,14 @@ impl MonState {
         // returns Some((err, fail_now)) ; fail_now=false => short grant this time
         if self.faults_paused {
             return None;
+        }
+        // calls of each kind that a fault could have hit (i.e. outside the harness's own
+        // paused read-backs): the scale on which fault positions are numbered
+        match kind {
+            K_WRITE => self.c.faultable[0] += 1,
+            K_SEEK => self.c.faultable[1] += 1,
+            K_FLUSH => self.c.faultable[2] += 1,
+            _ => {}
         }
         for i in 0..self.faults.len() {
             let f = self.faults[i].clone();
